@@ -3,7 +3,7 @@
      Routing.step / run        model of the bus (bus/dispatch.c, bus/bus.c, bus/connection.c)
      state_of cf h, trace_of cf h   state and observable trace after history h from the empty bus
      RoutingSpec.age / is_open / open_call   the ledger of open calls, read off the trace alone
-     plain h                   no unix fds attached and no REPLY_SERIAL on method calls (see the refuted statements)
+     plain h                   no REPLY_SERIAL on method calls (see the refuted statement, finding F7b)
    "reply" means: a message carrying a REPLY_SERIAL, whatever its type (that is what the bus consults). *)
 From DV Require Import Lib.Base Routing.Routing Spec.RoutingSpec Proofs.RoutingProofs.
 Local Open Scope N_scope.
@@ -36,7 +36,8 @@ Print Assumptions C09_only_addressee_any_state.
 (* any other reply is refused as access denied; nothing changes *)
 Theorem C09_refused : forall cf h c m r,
   restrictive cf = true -> plain h = true -> wf_event (state_of cf h) (ESend c m) = true -> m_rserial m <> 0 ->
-  resolve (state_of cf h) (m_dest m) = Some r -> age (reply_timeout cf) (trace_of cf h) r c (m_rserial m) = None ->
+  resolve (state_of cf h) (m_dest m) = Some r -> (0 <? m_nfds m) && negb (conn_fds (state_of cf h) r) = false ->
+  age (reply_timeout cf) (trace_of cf h) r c (m_rserial m) = None ->
   step cf (state_of cf h) (ESend c m) = (state_of cf h, [(c, OErr EAccessDenied (m_serial m))]).
 Proof. exact unrequested_denied. Qed.
 Print Assumptions C09_refused.
@@ -86,58 +87,55 @@ Print Assumptions C09_limit.
 
 Theorem C09_limit_refuses : forall cf st c m r,
   wf_event st (ESend c m) = true -> is_call m = true -> m_noreply m = false -> m_rserial m = 0 ->
-  resolve st (m_dest m) = Some r -> max_replies cf <= count_get c (st_pend st) ->
+  resolve st (m_dest m) = Some r -> (0 <? m_nfds m) && negb (conn_fds st r) = false ->
+  max_replies cf <= count_get c (st_pend st) ->
   (forall p, In p (st_pend st) -> pend_match c r (m_serial m) p = false) ->
   step cf st (ESend c m) = (st, [(c, OErr ELimitsExceeded (m_serial m))]).
 Proof. exact limit_refuses. Qed.
 Print Assumptions C09_limit_refuses.
 
 (* ------------------------------------------------------------------------------------------------
-   The statements WITHOUT the restriction to plain histories, which the faithful model does not meet
-   (finding F7: a message refused after bus_context_check_security_policy updated the table). *)
-Definition C09_only_addressee_full_statement : Prop := forall cf h c m a,
-  restrictive cf = true -> m_rserial m <> 0 ->
-  fwd_to (snd (step cf (state_of cf h) (ESend c m))) a = true ->
-  open_call (reply_timeout cf) (trace_of cf h) a c (m_rserial m).
-
+   The NoReply statement WITHOUT the restriction to plain histories, which the faithful model does not meet (finding F7b:
+   a method call that carries a REPLY_SERIAL is first treated as a reply -- it consumes the matching slot -- and can
+   then still be refused by the duplicate / limit test; nothing is rolled back). *)
 Definition C09_no_reply_full_statement : Prop := forall cf h a b s t,
   age (reply_timeout cf) (trace_of cf h) a b s = Some t -> a <> b ->
   count_noreply (snd (step cf (state_of cf h) (EDisconnect b))) a s = 1%nat.
 
 Definition cfg_r : cfg := mkCfg true 4 None.
-Definition call_fd : msg := mkMsg TCall false false 7 0 (DUnique 1) 1 1.      (* carries one fd *)
-Definition forged : msg := mkMsg TReturn false false 9 7 (DUnique 0) 0 2.
-(* connection 0 negotiated fd passing, connection 1 did not; 0 calls 1 with an fd: NotSupported, slot stays *)
-Definition h_f7 : list event := [EConnect true; EConnect false; ESend 0 call_fd].
-
-(* witness (a): the refused call can be "answered" by the connection that never received it *)
-Theorem C09_only_addressee_refuted :
-  exists cf h c m a, restrictive cf = true /\ m_rserial m <> 0 /\
-    snd (step cf (state_of cf h) (ESend c m)) = [(a, OFwd c m)] /\
-    age (reply_timeout cf) (trace_of cf h) a c (m_rserial m) = None /\
-    trace_of cf h = [(ESend 0 call_fd, [(0, OErr ENotSupported 7)]); (EConnect false, []); (EConnect true, [])].
-Proof. exists cfg_r, h_f7, 1, forged, 0. vm_compute. repeat split; auto; discriminate. Qed.
-Print Assumptions C09_only_addressee_refuted.
-
-(* ... and when the would-be callee leaves, the caller gets a second error (NoReply) for serial 7 *)
-Theorem C09_second_error_refuted :
-  exists cf h, snd (step cf (state_of cf h) (EDisconnect 1)) = [(0, OErr ENoReply 7)] /\
-    trace_of cf h = [(ESend 0 call_fd, [(0, OErr ENotSupported 7)]); (EConnect false, []); (EConnect true, [])].
-Proof. exists cfg_r, h_f7. vm_compute. auto. Qed.
-Print Assumptions C09_second_error_refuted.
-
-(* witness (b): a reply carrying an fd to a caller without fd passing consumes the slot; the callee then leaves and
-   the caller, whose call is still open on the ledger, gets no NoReply at all *)
+Definition cfg_1 : cfg := mkCfg true 1 None.
 Definition call_plain : msg := mkMsg TCall false false 7 0 (DUnique 1) 0 1.
-Definition reply_fd : msg := mkMsg TReturn false false 9 7 (DUnique 0) 1 2.
-Definition h_f7b : list event := [EConnect false; EConnect true; ESend 0 call_plain; ESend 1 reply_fd].
+(* 1 has one call open (its limit), 0 calls 1 (serial 7), 1 writes a CALL to 0 carrying REPLY_SERIAL 7: the slot (0,1,7) is
+   consumed, the call is refused LimitsExceeded; 1 leaves; 0, whose call is still open on the ledger, gets no NoReply *)
+Definition h_f7b : list event :=
+  [EConnect false; EConnect false; EConnect false;
+   ESend 1 (mkMsg TCall false false 5 0 (DUnique 2) 0 1);
+   ESend 0 (mkMsg TCall false false 7 0 (DUnique 1) 0 2);
+   ESend 1 (mkMsg TCall false false 6 7 (DUnique 0) 0 3)].
 
 Theorem C09_no_reply_refuted : ~ C09_no_reply_full_statement.
 Proof.
-  intros H. specialize (H cfg_r h_f7b 0 1 7 0). vm_compute in H.
+  intros H. specialize (H cfg_1 h_f7b 0 1 7 0). vm_compute in H.
   assert (X : 0%nat = 1%nat) by (apply H; [reflexivity|discriminate]). discriminate.
 Qed.
 Print Assumptions C09_no_reply_refuted.
+
+(* regression for the fixed finding F7: an fd-carrying call to a peer without fd passing is refused NotSupported and leaves
+   NO slot: the peer's "reply" is refused, its disconnect / the timeout produce no second error *)
+Definition call_fd : msg := mkMsg TCall false false 7 0 (DUnique 1) 1 1.
+Definition forged : msg := mkMsg TReturn false false 9 7 (DUnique 0) 0 2.
+Definition h_f7 : list event := [EConnect true; EConnect false; ESend 0 call_fd].
+Example ex_f7_refused : trace_of cfg_r h_f7 = [(ESend 0 call_fd, [(0, OErr ENotSupported 7)]); (EConnect false, []); (EConnect true, [])].
+Proof. vm_compute. reflexivity. Qed.
+Example ex_f7_no_slot : st_pend (state_of cfg_r h_f7) = []. Proof. vm_compute. reflexivity. Qed.
+Example ex_f7_forged_reply_refused : snd (step cfg_r (state_of cfg_r h_f7) (ESend 1 forged)) = [(1, OErr EAccessDenied 9)].
+Proof. vm_compute. reflexivity. Qed.
+Example ex_f7_no_second_error : snd (step cfg_r (state_of cfg_r h_f7) (EDisconnect 1)) = []. Proof. vm_compute. reflexivity. Qed.
+(* ... and a reply carrying an fd to a caller without fd passing no longer eats the caller's slot *)
+Definition reply_fd : msg := mkMsg TReturn false false 9 7 (DUnique 0) 1 2.
+Example ex_f7_reply_fd_keeps_slot :
+  snd (step cfg_r (state_of cfg_r [EConnect false; EConnect true; ESend 0 call_plain; ESend 1 reply_fd]) (EDisconnect 1)) = [(0, OErr ENoReply 7)].
+Proof. vm_compute. reflexivity. Qed.
 
 (* ------------------------------------------------------------------------------------------------ non-vacuity *)
 Definition reply_ok : msg := mkMsg TReturn false false 9 7 (DUnique 0) 0 2.
